@@ -67,6 +67,7 @@ type Contract struct {
 	Pure      bool // extern: result is an uninterpreted function of its arguments
 	NoDefault bool // extern: not subject to the unit's default call effect (errflow)
 	Fresh     bool
+	Protocols []string
 	File      string
 	Line      int
 	Opts      map[string]string
@@ -109,7 +110,17 @@ type Unit struct {
 	File     string
 }
 
+type applyStmt struct {
+	proto string
+	keys  []string
+	unit  *Unit
+	file  string
+	line  int
+}
+
 type ContractSet struct {
+	Protocols map[string]*Contract
+	applies   []applyStmt
 	Units     []*Unit
 	Funcs     map[string]*Contract // by FullKey
 	Externs   map[string]*Contract // by FullKey (may contain '*' globs)
@@ -118,7 +129,7 @@ type ContractSet struct {
 	All       []*Contract
 }
 
-var kwRe = regexp.MustCompile(`^(unit|ghost|spec|extern|func|lemma|requires|ensures|modifies|loop|tolerates|assert|tags|known|pure|nodefault|fresh|axiom|opt)\b`)
+var kwRe = regexp.MustCompile(`^(unit|ghost|spec|extern|func|lemma|protocol|apply|requires|ensures|modifies|loop|tolerates|assert|tags|known|pure|nodefault|fresh|axiom|opt)\b`)
 
 func parseExprClause(text, file string, line int) (*Clause, error) {
 	t := strings.ReplaceAll(text, "==>", "&& _IMPLIES_ &&") // placeholder, fixed below
@@ -292,10 +303,15 @@ func parseHead(rest string) (key string, params []SpecParam, results []string, e
 		}
 		rest = strings.TrimSpace(rest[:i])
 	}
-	// key: if starts with '(' the receiver group comes first
+	// key: optional "defer "/"rundefer " prefix; if it then starts with '(' the receiver group comes first
 	k := 0
-	if strings.HasPrefix(rest, "(") {
-		k = strings.Index(rest, ")") + 1
+	for _, pre := range []string{"defer ", "rundefer "} {
+		if strings.HasPrefix(rest, pre) {
+			k = len(pre)
+		}
+	}
+	if strings.HasPrefix(rest[k:], "(") {
+		k += strings.Index(rest[k:], ")") + 1
 	}
 	j := strings.Index(rest[k:], "(")
 	if j < 0 {
@@ -318,6 +334,40 @@ func LoadContracts(repo string, pkgDirs []string) (*ContractSet, error) {
 			if err := cs.parseFile(f, d); err != nil {
 				return nil, err
 			}
+		}
+	}
+	// apply protocols: their clauses are added to the (possibly new) contract of each listed function
+	for _, a := range cs.applies {
+		p := cs.Protocols[a.proto]
+		if p == nil {
+			return nil, fmt.Errorf("%s:%d: unknown protocol %s", a.file, a.line, a.proto)
+		}
+		for _, k := range a.keys {
+			full := qualifyKey(k, a.unit.PkgName)
+			ct := cs.Funcs[full]
+			if ct == nil {
+				ct = &Contract{Kind: "func", Key: k, FullKey: full, Pkg: a.unit.Pkg, PkgName: a.unit.PkgName, Unit: a.unit,
+					Loops: map[int]*LoopSpec{}, File: a.file, Line: a.line, Opts: map[string]string{}}
+				cs.Funcs[full] = ct
+				cs.All = append(cs.All, ct)
+			}
+			ct.Requires = append(ct.Requires, p.Requires...)
+			ct.Ensures = append(ct.Ensures, p.Ensures...)
+			for _, m := range p.Modifies {
+				dup := false
+				for _, x := range ct.Modifies {
+					dup = dup || x == m
+				}
+				if !dup {
+					ct.Modifies = append(ct.Modifies, m)
+				}
+			}
+			for _, t := range p.Tags {
+				if !hasTag(ct.Tags, t) {
+					ct.Tags = append(ct.Tags, t)
+				}
+			}
+			ct.Protocols = append(ct.Protocols, p.Key)
 		}
 	}
 	return cs, nil
@@ -430,6 +480,29 @@ func (cs *ContractSet) parseFile(file, relDir string) error {
 			sf.Rec = regexp.MustCompile(`\b` + regexp.QuoteMeta(sf.Name) + `\(`).MatchString(body)
 			unit.Specs[sf.Name] = sf
 			unit.SpecList = append(unit.SpecList, sf)
+		case "apply":
+			k := strings.Index(s.rest, ":")
+			if k < 0 || unit == nil {
+				return fmt.Errorf("%s:%d: apply <Protocol>: key, key, ...", file, s.line)
+			}
+			var keys []string
+			for _, x := range splitTop(s.rest[k+1:], ',') {
+				if x = strings.TrimSpace(x); x != "" {
+					keys = append(keys, x)
+				}
+			}
+			cs.applies = append(cs.applies, applyStmt{strings.TrimSpace(s.rest[:k]), keys, unit, file, s.line})
+			cur = nil
+		case "protocol":
+			if unit == nil {
+				return fmt.Errorf("%s:%d: protocol outside unit", file, s.line)
+			}
+			cur = &Contract{Kind: "protocol", Key: strings.TrimSpace(s.rest), Pkg: pkgPath, PkgName: pkgName, Unit: unit,
+				Loops: map[int]*LoopSpec{}, File: file, Line: s.line, Opts: map[string]string{}}
+			if cs.Protocols == nil {
+				cs.Protocols = map[string]*Contract{}
+			}
+			cs.Protocols[cur.Key] = cur
 		case "func", "extern", "lemma":
 			if unit == nil {
 				return fmt.Errorf("%s:%d: %s outside unit", file, s.line, s.kw)
